@@ -1,0 +1,11 @@
+//go:build !verif
+
+// Package verifhook provides named scheduling points and a clock override for the
+// verification harness. Without the build tag `verif` everything here is a no-op.
+package verifhook
+
+// Point marks a named scheduling point (no-op unless built with -tags verif)
+func Point(string) {}
+
+// Now returns an overriding clock value (never set unless built with -tags verif)
+func Now() (int64, bool) { return 0, false }
